@@ -24,6 +24,7 @@ def run(tier, seed):
                        "infallible RNG methods panic; entry points keygen, sign, hash-sign (3 pre-hash functions); distinct = distinct (entry, mode, fault, request log) x 3 sets; "
                        "plus 256-bit draw sweeps per entry point and OS-RNG freshness; plus spec-generated behaviours with faults")
     chk.leg("trace validation (Layer A judge)", events=n + n2)
+    common.nohooks_leg(chk, "rngfaults", profile="checked", nsweeps=1)
     common.mc_leg(chk, "MC_API", tier=tier)
     chk.cov["exhaustive"] = True
     chk.cov["exhaustive_note"] = "every (fault kind x entry point x set) of the model; there is exactly one RNG request per operation, so one fault point"
